@@ -130,6 +130,9 @@ def run(pid, tier, replay=None):
             chk.distinct.add(("block", ci, a, len(raw), len(blk.transactions)))
             chk.sample({"block_bytes": len(raw), "transactions": len(blk.transactions), "mutations": len(events),
                         "example": events[len(events) // 3]})
+    rc_ = interference_stage(chk, quick, rng, pid, keys)
+    if rc_:
+        return rc_
     sk.apply_cfg(cfg)
     chk.distinct.add(("mutations", chk.evaluations))
     verdicts, r2 = tracecheck.run("TraceTamper", traces, {}, ids=[t["id"] for t in traces], workers=4, timeout=3000)
@@ -150,6 +153,111 @@ def run(pid, tier, replay=None):
                          "truncation point (size), each decoded and fully validated against the same chain; distinct_nontrivial counts blocks, evaluations counts mutations")
     chk.assumptions.append("bit flips cannot reach non-canonical VLQ forms other than through decode errors; hash functions ideal in the design-level run")
     return chk.finish()
+
+
+def interference_stage(chk, quick, rng, pid, keys):
+    """The verdict on an altered copy of a valid block is a function of (bytes, chain, clock) -- also while the miner's thread is handling
+    a block it has just found (Interfere.tla; preemption-point exploration on real threads: the real MinerWatcher result handler stopped
+    before every line it executes in mining.py and the consensus modules, the network thread's full validation of the altered copies run
+    entirely at stop k; and the other way round)."""
+    from checks import interfere
+    from checks import node as nodechk
+    from harness import node_drv, preempt
+    from skepticoin.datatypes import Block, BlockHeader
+    import skepticoin.consensus as c
+    import skepticoin.mining as mining
+    rc_ = interfere.design(chk, pid)
+    if rc_:
+        return rc_
+    cfg_i = sk.Cfg(**nodechk.MODEL_CFG)
+    sk.apply_cfg(cfg_i)
+    wi, gi, bi, ti = nodechk.build_universe(cfg_i, keys)
+    cs_i = wi.T["CoinState"].empty().add_block_no_validation(gi).add_block_no_validation(bi[1])
+    raw = bi[2].serialize()
+    end, fields = wiregen.layout("Block", raw)
+    altered = []
+    for (off, wd, kind, path) in fields:
+        if field_class(path) in ("summary", "evidence", "summary_height", "header_version"):
+            o = off + wd - 1
+            altered.append(raw[:o] + bytes([raw[o] ^ 1]) + raw[o + 1:])
+    altered = altered[:16]
+    now_i = bi[2].timestamp + 5
+
+    def fb():
+        out = []
+        for m in altered:
+            try:
+                x_ = Block.deserialize(m)
+            except Exception:
+                out.append("decode_error")
+                continue
+            try:
+                cs_i.add_block(x_, now_i)
+                out.append("accepted")
+            except Exception as e_:
+                out.append(sk.rule_of_exception(e_))
+        return out
+    ref = fb()
+    if "accepted" in ref:
+        chk.violation("C06:altered_block_accepted", {"verdicts_on_altered_copies": ref})
+        return 0
+    try:
+        cs_i.add_block(bi[2], now_i)
+    except Exception as e_:
+        return machinery_failure(pid, "the unaltered block does not pass: %r" % e_)
+    mining.print = lambda *a, **k: None
+
+    def make():
+        run_ = node_drv.NodeRun(wi, gi, peers=nodechk.PEERS)
+        run_.deliver_block("p", bi[1])
+        run_.miner()
+        mw = run_.mw
+        sh = None
+        for nonce in range(400):
+            if run_.mine_request(nonce) is None:
+                continue
+            summary, height, txs = mw.mining_args[0]
+            sh_ = c.construct_summary_hash(summary, height)
+            ev = c.construct_pow_evidence_after_scrypt(sh_, mw.coinstate, summary, height, txs)
+            if indep.blockid(Block(BlockHeader(summary, ev), txs)) < summary.target:
+                sh = sh_
+                break
+        if sh is None:
+            raise RuntimeError("no nonce found a block")
+        out = {}
+
+        def a():
+            run_.node.use_store()
+            mw.handle_scrypt_output_message(0, sh)
+            out["x"] = ("ok", run_.node.chain().head().height)
+
+        def b():
+            out["y"] = ("ok", fb())
+        return {"a": a, "b": b, "observe": lambda: dict(out), "close": run_.close}
+    files = interfere.FILES + ("skepticoin/mining.py",)
+    alone_y = interfere._digest(("ok", ref))
+    traces = []
+    for tag in ("miner_stepped", "validation_stepped"):
+        def mk(tag=tag):
+            ctx = make()
+            if tag == "validation_stepped":
+                ctx["a"], ctx["b"] = ctx["b"], ctx["a"]
+            return ctx
+        n = preempt.count_stops(mk, files, sk.reset_module_state)
+        if n < 20:
+            return machinery_failure(pid, "only %d line stops in %s" % (n, tag))
+        ks = list(range(n + 1))
+        cap = 120 if quick else 1500
+        if len(ks) > cap:
+            ks = sorted(set(rng.sample(ks, cap - 20) + ks[:10] + ks[-10:]))
+        for (k, nn, blocked, obs, errs) in preempt.explore(mk, files, ks=ks, reset=sk.reset_module_state):
+            hx = obs.get("x")
+            traces.append({"id": 0, "prop": pid, "what": "verdict_on_altered_copies_of_a_valid_block", "alone": alone_y, "got": interfere._digest(obs.get("y")),
+                           "other_alone": "found", "other_got": "found" if hx == ("ok", 2) else repr(hx), "errors": errs, "k": k, "of": nn, "stepped": tag})
+            chk.case(("interfere", tag, k), nontrivial=True)
+    interfere.judge(chk, traces, pid)
+    sk.restore_cfg()
+    return 0
 
 
 def one(m, off, bit, fclass, orig, cs, now, stats, cs_without=None):
